@@ -32,7 +32,7 @@ ASSUMPTIONS = [
 ]
 NOW = datetime.datetime(2024, 3, 1, 12, 0, 3, 500000, tzinfo=datetime.timezone.utc)
 
-VALUES = ['', 'none', '0', '-1', '1.5', 'abc', '1e9', '9' * 30, 'a,b', '=', '503=', '503=abc', '503=5', '99:99:99Z',
+VALUES = ['', 'none', '0', '-1', '1.5', 'abc', '1e9', '9' * 30, '2147483647', '-2147483647', 'a,b', '=', '503=', '503=abc', '503=5', '99:99:99Z',
           '2024-13-45T00:00:00Z', '%00', 'x' * 4096, 'unknown-drm', 'playready-nowhere', 'true', '12:00:04Z',
           '404=12:00:04Z', '503=5,404=6', '-5', '2024-03-01T00:00:00Z', '[1]', '{"a":1}', '1,2,3', 'é',
           'all', 'playready', 'clearkey-moov', 'ping', 'scte35', 'ec-3', 'xsd', 'ntp', '1', 'epoch', 'now']
